@@ -30,6 +30,11 @@ CLAIMED = {
          "Kernel-checked: perm_sign = (-1)^inversions and multiplicative; enumerators complete, duplicate-free with the right counts; projector models = group-average spec for all d, p; Hermitian, idempotent, permutation (sign) action, "
          "orthogonality, p=2 resolution of identity for all d; ranks for the property's finite table by kernel evaluation. Tie to /repo: exact equality for all permutations <= 6, multisets <= 6, matchings n <= 10, all (d,p) of the table; isometry forms by exact relation residuals.",
          "Trusted: Lean kernel + standard axioms; hand-written model/spec; Python harness. partial=True (LAPACK orth) is checked through its defining relations, not modelled."),
+ "C17": ("Lean 4 theorems on exact closed-form models of the state/matrix constructors (all d, all n) + exact/1e-12 correspondence with the constructors",
+         "Kernel-checked (75 theorems): Weyl relation, Fourier intertwining and unitarity, generalised-Pauli / Pauli-string / (generalised) Gell-Mann trace-orthogonality, Hadamard orthogonality for every n, Bell / generalised Bell orthonormality and maximally "
+         "mixed marginals, GHZ / W / Dicke support, symmetry and norm, Werner U(x)U and isotropic U(x)conj(U) invariance, PPT and PSD thresholds of Werner and isotropic states as iff-theorems over ordered fields, list form = scalar form of the bipartite Werner state. "
+         "Tie to /repo: every exported constructor compared with the model (exact for integer-valued numerators, zero pattern + 1e-12 otherwise) over dims 2..5, qubit counts 1..5, parameter grids incl. end points; identities re-checked on toqito's arrays with exact rational unitaries.",
+         "Trusted: Lean kernel + standard axioms; hand-written models; Python harness. Not proved in Lean (harness only): Horodecki PPT for all a (exact LDL certificates at Pythagorean parameters), MUB unbiasedness (primes 2,3,5), constructors without a model (bb84, trine, gisin, breuer, chessboard, brauer, PBR) checked against identities."),
 }
 PENDING_REASON = "check not built yet in this round (work in progress; see DESIGN.md section 7 for the plan)"
 
